@@ -45,6 +45,12 @@ def gen_spec(rnd):
             w['max_retry'] = rnd.choice([1, 2, 5])
         if rnd.random() < .1:
             w['autostart'] = False
+        if rnd.random() < .15:
+            # captured output, in the documented combinations with close_child_std*
+            w['capture'] = rnd.choice([True, 'both'])
+            for opt in ('close_child_stdout', 'close_child_stderr', 'close_child_stdin'):
+                if rnd.random() < .35:
+                    w[opt] = rnd.random() < .7
         ws.append(w)
     names = [w['name'] for w in ws]
     steps = []
